@@ -96,6 +96,17 @@ fn cases_presence_enum(rng: &mut Rng, sink: &mut dyn FnMut(J) -> bool) {
 }
 
 fn cases_order(_rng: &mut Rng, sink: &mut dyn FnMut(J) -> bool) {
+    // list-size classes judged on their own: a credential family in which every object with hidden
+    // members has exactly 2 (3, 4) of them (top level, nested, inside a hidden array element)
+    for decoys in [false, true] {
+        for per_object in [2usize, 3, 4] {
+            for whre in ["payload", "disclosed"] {
+                if !sink(json!({"kind": "order", "where": whre, "decoys": decoys, "strategy": "AllLevels", "format": if per_object % 2 == 0 { "compact" } else { "json" }, "lists": 220, "family": "uniform", "per_object": per_object})) {
+                    return;
+                }
+            }
+        }
+    }
     for decoys in [true, false] {
         for whre in ["disclosed", "payload"] {
             for strategy in ["AllLevels", "Custom"] {
@@ -214,6 +225,19 @@ fn order_claims(k: usize) -> J {
         "emp": {"org": "o", "role": "r", "since": 2000 + k, "geo": {"lat": 1, "lon": 2, "alt": 3}},
         "list": [{"a": 1, "b": 2, "c": 3}, {"x": 1, "y": 2, "z": 3}]
     })
+}
+
+/// Every object that hides members hides exactly `m` of them: the root (besides iss/exp), a
+/// nested object, and an object that is itself a hidden array element.
+fn uniform_claims(k: usize, m: usize) -> J {
+    let obj = |tag: &str| -> J { J::Object((0..m).map(|i| (format!("{tag}{i}"), json!(k * 10 + i))).collect()) };
+    let mut root = json!({"iss": "i", "exp": FAR_EXP});
+    root["a"] = obj("x");
+    root["l"] = json!([obj("p")]);
+    for i in 2..m {
+        root[format!("r{i}")] = json!(i);
+    }
+    root
 }
 
 fn order_custom_paths() -> Vec<String> {
@@ -343,7 +367,7 @@ pub fn check(case: &J) -> Verdict {
             let mut sample = String::new();
             while total < target && k < 400 {
                 k += 1;
-                let claims = order_claims(k);
+                let claims = if case["family"] == "uniform" { uniform_claims(k, case["per_object"].as_u64().unwrap_or(2) as usize) } else { order_claims(k) };
                 let Out::Ok(s) = sut::issue("ES256", &claims, &strategy, None, decoys, format) else { return fail("issuance failed", "Ok") };
                 let Some(parts) = Parts::parse(&s, format) else { return Verdict::Trivial };
                 let Some(payload) = parts.payload() else { return Verdict::Trivial };
